@@ -107,7 +107,7 @@ Definition erase_outcome (o : outcome) : outcome :=
 
 Lemma run_input_erase f now s i : run_input f0 now (erase s) i = erase_outcome (run_input f now s i).
 Proof.
-  destruct i as [ps ts ref md amd force | id force at_eff | [a|id] md | [a|id] k]; cbn [run_input].
+  destruct i as [ps ts ref md amd force | id force at_eff rmeta | [a|id] md | [a|id] k]; cbn [run_input].
   - destruct ps as [|p ps']; [reflexivity|]. cbn [erase s_vols].
     destruct (feasible force (s_vols s) (p :: ps')); cbn [negb]; [|reflexivity].
     destruct (commit_transaction f now s (p :: ps') md ts ref) as [s1 o] eqn:E.
